@@ -2,7 +2,7 @@
 (* Self-check of the P-Code reference interpreter (Pcode.tla), mode M:     *)
 (*  - OpsAgree: every integer / boolean mnemonic agrees with the           *)
 (*    independent integer transcription BVInt.tla on all pairs (a, b) of   *)
-(*    1-byte operands with a in AVals (MC_Pcode.cfg: 10 boundary values,   *)
+(*    1-byte operands with a in AVals (MC_Pcode.cfg: 8 boundary values,   *)
 (*    MC_Pcode_thorough.cfg: all 256) and b in 0..255, under the intended  *)
 (*    mnemonic -> operation table below;                                   *)
 (*  - AliasLaws: the register views (RegView / ReadReg / WriteReg) satisfy *)
